@@ -25,6 +25,7 @@ import (
 	"github.com/rpcpool/yellowstone-faithful/blocktimeindex"
 	"github.com/rpcpool/yellowstone-faithful/bucketteer"
 	"github.com/rpcpool/yellowstone-faithful/carreader"
+	"github.com/rpcpool/yellowstone-faithful/compactindexsized"
 	deprecatedbucketter "github.com/rpcpool/yellowstone-faithful/deprecated/bucketteer"
 	"github.com/rpcpool/yellowstone-faithful/gsfa"
 	hugecache "github.com/rpcpool/yellowstone-faithful/huge-cache"
@@ -888,6 +889,14 @@ func (ser *Epoch) GetBlock(ctx context.Context, slot uint64) (*ipldbindcode.Bloc
 	if err != nil {
 		return nil, cid.Cid{}, fmt.Errorf("failed to decode block with CID %s: %w", wantedCid, err)
 	}
+	// The slot-to-cid index keeps no keys, only a 24-bit hash per entry: looking up a slot that is
+	// not in the index can land on the entry of another slot. The block itself says which slot it is.
+	if uint64(decoded.Slot) != slot {
+		return nil, cid.Cid{}, fmt.Errorf(
+			"failed to find CID for slot %d: the index points to the block of slot %d: %w",
+			slot, decoded.Slot, compactindexsized.ErrNotFound,
+		)
+	}
 	return decoded, wantedCid, nil
 }
 
@@ -965,6 +974,18 @@ func (ser *Epoch) GetTransaction(ctx context.Context, sig solana.Signature) (*ip
 	decoded, err := iplddecoders.DecodeTransaction(data)
 	if err != nil {
 		return nil, cid.Cid{}, fmt.Errorf("failed to decode transaction with CID %s: %w", wantedCid, err)
+	}
+	// Same as for slots: the sig-to-cid index keeps no keys, so a signature that is not in the index
+	// can land on the entry of another transaction. The index key is the first signature.
+	gotSig, err := decoded.Signature()
+	if err != nil {
+		return nil, cid.Cid{}, fmt.Errorf("failed to read the signature of transaction with CID %s: %w", wantedCid, err)
+	}
+	if gotSig != sig {
+		return nil, cid.Cid{}, fmt.Errorf(
+			"failed to find CID for signature %s: the index points to transaction %s: %w",
+			sig, gotSig, compactindexsized.ErrNotFound,
+		)
 	}
 	return decoded, wantedCid, nil
 }
